@@ -268,7 +268,7 @@ func runRebalanceSchedule(rng *rand.Rand, dynamic bool) *c11Result {
 			time.Sleep(10 * time.Millisecond)
 			phase, timer = "delay", "armed"
 			lastNotify = time.Now()
-			emit("closedone", "CloseDone", d.Hand.Take())
+			emit("closedone", "CloseDone", d.Hand.TakeThrough("AfterRebalanceStart")) // with dynamic membership the reopen may already have started
 		case "deferred":
 			deferred--
 			if phase == "open" {
@@ -295,6 +295,8 @@ func runRebalanceSchedule(rng *rand.Rand, dynamic bool) *c11Result {
 			holdMu.Unlock()
 			if !waitHeld("BeforeRebalanceEnd", 3*c11Delay+time.Second) {
 				res.Notes = append(res.Notes, "the reopen timer never fired")
+			} else if dynamic && !everDeferred && time.Since(lastNotify) > c11Delay/2 {
+				res.Notes = append(res.Notes, fmt.Sprintf("dynamic membership: the reopen started %v after the close, not immediately", time.Since(lastNotify)))
 			}
 			if !dynamic && !everDeferred && time.Since(lastNotify) < c11Delay/2 {
 				res.Notes = append(res.Notes, fmt.Sprintf("the reopen started %v after the last notification, the configured delay is %v", time.Since(lastNotify), c11Delay))
@@ -400,13 +402,15 @@ func runC11(c *Ctx) {
 		"deferred timers are real (delay 250 ms). Observed per step: the callbacks; at rest: completed cycles, the range the stream is opened on, open, stopCh. " +
 		"Distinct = distinct step list; non-trivial = at least two notifications"
 	n := c.Pick(48, 400)
+	nd := c.Pick(12, 80) // the last nd schedules run with dynamic membership: the reopen starts at once
+	n += nd
 	seeds := make([]int64, n)
 	for i := range seeds {
 		seeds[i] = c.Rng.Int63()
 	}
 	results := make([]*c11Result, n)
 	Parallel(n, 16, func(i int) {
-		results[i] = runRebalanceChild(seeds[i], false)
+		results[i] = runRebalanceChild(seeds[i], i >= n-nd)
 	})
 	var cs []gal.Term
 	var rs []string
@@ -415,7 +419,10 @@ func runC11(c *Ctx) {
 			c.Violate("process-died", "the process running this schedule of stream.Rebalance() died: "+r.Crashed, map[string]interface{}{"seed": seeds[i], "how": "vh child c11 with this seed"})
 			continue
 		}
-		rep := map[string]interface{}{"seed": seeds[i], "steps": r.Ops, "callbacks_per_step": r.Outs, "cycles": r.Cycles, "membership_values": c11Members, "open_on_range_of_value": r.Range, "open_on_vbs": r.RangeVbs, "open": r.Open, "bursts": r.Burst}
+		if i >= n-nd {
+			c.Count("dynamic-membership-schedule")
+		}
+		rep := map[string]interface{}{"seed": seeds[i], "dynamic_membership": i >= n-nd, "steps": r.Ops, "callbacks_per_step": r.Outs, "cycles": r.Cycles, "membership_values": c11Members, "open_on_range_of_value": r.Range, "open_on_vbs": r.RangeVbs, "open": r.Open, "bursts": r.Burst}
 		nn := 0
 		for _, o := range r.Ops {
 			if o == "notify" {
